@@ -13,7 +13,7 @@ func init() {
 	registerProperty(&PropertyInfo{
 		ID:    "C15",
 		Title: "Writer and Reader are safe for concurrent use and Close terminates",
-		Rules: []string{"C15.R1", "C15.R2", "C15.R3", "C15.R4", "C05.R1"},
+		Rules: []string{"C15.R1", "C15.R2", "C15.R3", "C15.R4", "C15.R5", "C05.R1"},
 		Decides: "static lock-set and atomic discipline (necessary for race freedom) and interruptibility of the background loops: every access to a mutex-guarded field (Writer.root/rootPersisted/persistedCallbacks under rootLock, Snapshot.refs under m, Snapshot.fieldTFRs under m2, closeOnLastRefCounter.refs under m, InMemoryDirectory.segments under segLock, WriterOffline.segCount/segIDs under m) happens with its guard held on every path (write lock for writes), except on objects allocated in the same function or in helpers all of whose callers hold the guard; every field that is passed to sync/atomic anywhere is accessed only through sync/atomic (except before the first go statement of its constructor); the deletion policy is touched only by the persister goroutine or before the goroutines start; every blocking channel operation reachable from the three background loops sits in a select with a close-channel case or is one half of a checked rendezvous; each started loop is counted in the wait group and reaches Done on every exit.",
 		NotCovered: "data races inside third-party code; happens-before through channels; termination in general.",
 	})
